@@ -36,7 +36,7 @@ for n, tier in [(24, "thorough"), (28, "thorough")]:
     hs.append(H("c01::tree_roundtrip::c06_tree_decode_%d" % n, crate="h-object", tier=tier, timeout=2400, mem=12, covers=1 if n < 27 else 2, extra_args=STUB,
                 desc="TreeRefIter over arbitrary bytes: entries or an error, never a panic", inputs="%d arbitrary bytes" % n, bound="unwind %d" % (n + 2)))
 hs += borrowed("C15", ["c15_validate_3", "c15_validate_5", "c15_sanitize_1", "c15_sanitize_2", "c15_sanitize_3", "c15_sanitize_lock_0_1"], "h-core")
-hs += borrowed("C29", ["c29_prefix_all", "c29_streaming_short", "c29_streaming_6", "c29_streaming_8"], "h-core")
+hs += borrowed("C29", ["c29_prefix_all", "c29_streaming_short", "c29_streaming_6", "c29_streaming_8", "c29_reader_6"], "h-core")
 hs += borrowed("C57", ["c57_nopanic_2", "c57_nopanic_3", "c57_nopanic_4"], "h-core")
 hs += borrowed("C07", ["c07_delta_hdr_3", "c07_delta_hdr_9"], "h-pack")
 
@@ -48,7 +48,6 @@ SPEC = {
                   "gix_packetline::decode::{hex_prefix,streaming}", "gix_quote::ansi_c::undo", "gix_pack::data::delta::decode_header_size"],
     "bounds": "per entry point: arbitrary byte strings of the stated small lengths (every byte value); EWAH bitmaps of <= 1 (2 thorough) words",
     "outside": ["every other entry point the property names: git objects (commit/tree/tag decoding), packed-refs, loose refs, reflog lines, config files, index files, attributes/ignore files, mailmap, commit-graph, multi-pack-index, ref advertisements, fetch responses, URLs, refspecs, revision specs, pathspecs, dates, credential messages - their parsers are winnow grammars, operate on memory-mapped files, or go through url/jiff; the smallest symbolic inputs were measured to exceed 600-900 s or 6-20 GB (DESIGN.md section 4)",
-                "the blocking packet-line *reader* (65520-byte buffer: every query over it ran out of memory; its defect was found by reading, demonstrated natively and fixed)",
                 "'never hangs' beyond the unwinding bounds; inputs longer than the bounds", "EWAH run lengths > 0 (legitimately up to 2^38 callbacks)"],
     "stubs": ["alloc::fmt::format -> empty String; gix_quote::ansi_c::undo::Error::new -> constant (error text construction only)"],
     "assumptions": [],
